@@ -32,7 +32,11 @@ def handle (toks : List String) : String :=
     -- is the document in the class of Props.C01.calc_eq_spec, and its largest weight (Spec/C01.lean)
     match pDoc rest with
     | some (d, []) =>
-      s!"ok {if GoblVerif.Calc.Err.inDocC d then 1 else 0} {GoblVerif.Calc.Err.docWeight d}"
+      -- 1: class of calc_eq_spec (no included tax); 2: class of calc_eq_spec_included only
+      -- (inDocI, weight docWeightI: prices including one tax category)
+      if GoblVerif.Calc.Err.inDocC d then s!"ok 1 {GoblVerif.Calc.Err.docWeight d}"
+      else if GoblVerif.Calc.Err.inDocI d then s!"ok 2 {GoblVerif.Calc.Err.docWeightI d}"
+      else "ok 0 0"
     | some (_, _) => "bad-trailing"
     | none => "bad-doc"
   | _ => "bad-op"
